@@ -56,21 +56,32 @@ def gen_value(rng, alphabet):
 
 
 def gen_one(rng, tier, scale=False):
+    deep = False
     big = tier == 'thorough' and rng.random() < 0.5
     alphabet = ['a', 'b', 'c', 'd'][:rng.randint(3, 4)]
     maxdepth = 6 if big else 5
     if scale:
         alphabet = [f'n{i}' for i in range(12)] + ['a.b', 'x y', 'ü', '0']
+        if rng.random() < 0.5:
+            # long chains: keys with 8-14 components over a tiny alphabet
+            alphabet = ['p', 'q']
+            deep = True
     ops = []
     for _ in range(rng.randint(1, 40 if big else 20) if not scale else 120):
         k = rng.random()
         if k < 0.72:
-            ops.append(['set', gen_key(rng, alphabet, maxdepth),
-                        gen_value(rng, alphabet)])
+            key = gen_key(rng, alphabet, maxdepth)
+            if deep and rng.random() < 0.6:
+                key = '/'.join(rng.choice(alphabet)
+                               for _ in range(rng.randint(8, 14)))
+            ops.append(['set', key, gen_value(rng, alphabet)])
         elif k < 0.84:
             ops.append(['layer_set', gen_key(rng, alphabet, 3)])
         elif k < 0.88:
             ops.append(['reassign', gen_key(rng, alphabet, 3)])
+        elif k < 0.93:
+            ops.append(['set_via', gen_key(rng, alphabet, 2),
+                        gen_key(rng, alphabet, 3), gen_value(rng, alphabet)])
         else:
             ops.append(['clear', None if rng.random() < 0.3
                         else gen_key(rng, alphabet, 2)])
@@ -100,6 +111,10 @@ def run_case(case):
                     continue
             elif name == 'reassign':
                 if not drv.reassign(op[1]):
+                    res.stats['ops_skipped'] += 1
+                    continue
+            elif name == 'set_via':
+                if not drv.set_via(op[1], op[2], op[3]):
                     res.stats['ops_skipped'] += 1
                     continue
             elif name == 'clear':
